@@ -440,6 +440,14 @@ pub fn woff2_stream(d: &[u8]) -> Option<(usize, usize)> {
 
 /// Encode `raw` as a brotli stream of stored meta-blocks.
 pub fn brotli_stored(raw: &[u8]) -> Vec<u8> {
+    brotli_stored_tail(raw, 0)
+}
+
+/// As [`brotli_stored`], followed by `tail_blocks` *compressed* meta-blocks of 16 MiB of zero
+/// bytes each (one literal and one copy command of distance 1; every prefix code has a single
+/// symbol, so a block costs 13 bytes): a stream whose decompressed size is out of all
+/// proportion to its length and to the table sizes the WOFF2 directory declares.
+pub fn brotli_stored_tail(raw: &[u8], tail_blocks: u32) -> Vec<u8> {
     // Bit writer, LSB first.
     struct Bw {
         out: Vec<u8>,
@@ -478,6 +486,37 @@ pub fn brotli_stored(raw: &[u8]) -> Vec<u8> {
         w.align();
         w.out.extend_from_slice(chunk);
     }
+    for _ in 0..tail_blocks {
+        const MLEN: u64 = 1 << 24;
+        w.put(0, 1); // ISLAST = 0
+        w.put(2, 2); // MNIBBLES = 6
+        w.put(MLEN - 1, 24); // MLEN - 1
+        w.put(0, 1); // ISUNCOMPRESSED = 0
+        w.put(0, 1); // NBLTYPESL = 1
+        w.put(0, 1); // NBLTYPESI = 1
+        w.put(0, 1); // NBLTYPESD = 1
+        w.put(0, 2); // NPOSTFIX
+        w.put(0, 4); // NDIRECT
+        w.put(0, 2); // context mode of the single literal block type
+        w.put(0, 1); // NTREESL = 1
+        w.put(0, 1); // NTREESD = 1
+        // literal code: simple, one symbol (byte 0)
+        w.put(1, 2);
+        w.put(0, 2);
+        w.put(0, 8);
+        // insert-and-copy code: simple, one symbol: insert code 1 (one literal), copy code 23
+        // (2118 + 24 extra bits), explicit distance -> cell 384..447
+        w.put(1, 2);
+        w.put(0, 2);
+        w.put(384 + (1 << 3) + 7, 10);
+        // distance code: simple, one symbol 16 (distance 1 + one extra bit)
+        w.put(1, 2);
+        w.put(0, 2);
+        w.put(16, 6);
+        // the command: no bits for the three symbols; copy length extra, distance extra
+        w.put(MLEN - 1 - 2118, 24);
+        w.put(0, 1);
+    }
     w.put(1, 1); // ISLAST
     w.put(1, 1); // ISLASTEMPTY
     w.align();
@@ -487,13 +526,37 @@ pub fn brotli_stored(raw: &[u8]) -> Vec<u8> {
 /// Inflate the WOFF2 stream, let `mutate` edit the decompressed block, re-wrap it as stored
 /// blocks and patch `totalCompressedSize` and `length`.
 pub fn woff2_rewrap(file: &[u8], mutate: impl FnOnce(&mut Vec<u8>)) -> Option<Vec<u8>> {
+    woff2_rewrap_tail(file, 0, mutate)
+}
+
+/// Append an extended-metadata block of `blocks` run-length meta-blocks to a re-wrapped WOFF2
+/// file (whose metadata fields are zero) and point the header at it.
+pub fn woff2_attach_meta(file: &mut Vec<u8>, blocks: u32) {
+    if blocks == 0 || file.len() < 48 {
+        return;
+    }
+    while file.len() % 4 != 0 {
+        file.push(0);
+    }
+    let meta = brotli_stored_tail(&[], blocks);
+    let off = file.len() as u32;
+    file.extend_from_slice(&meta);
+    let total = file.len() as u32;
+    file[8..12].copy_from_slice(&total.to_be_bytes());
+    file[28..32].copy_from_slice(&off.to_be_bytes());
+    file[32..36].copy_from_slice(&(meta.len() as u32).to_be_bytes());
+    file[36..40].copy_from_slice(&(blocks.saturating_mul(1 << 24)).to_be_bytes());
+}
+
+/// As [`woff2_rewrap`], with `tail_blocks` run-length meta-blocks appended to the stream.
+pub fn woff2_rewrap_tail(file: &[u8], tail_blocks: u32, mutate: impl FnOnce(&mut Vec<u8>)) -> Option<Vec<u8>> {
     use std::io::Read;
     let (start, len) = woff2_stream(file)?;
     let mut raw = Vec::new();
     let mut dec = brotli_decompressor::Decompressor::new(&file[start..start + len], 4096);
     dec.read_to_end(&mut raw).ok()?;
     mutate(&mut raw);
-    let stored = brotli_stored(&raw);
+    let stored = brotli_stored_tail(&raw, tail_blocks);
     let mut out = Vec::with_capacity(start + stored.len() + 4);
     out.extend_from_slice(&file[..start]);
     out.extend_from_slice(&stored);
